@@ -119,6 +119,7 @@ def install_deadline_loop(h, w, F, T, ev):
         return st[-1] if st else None
 
     def wait_hook(it2, event):
+        state["waits"] = state.get("waits", 0) + 1
         cm = cur_timeout()
         h.oblige("the response event is only ever awaited under an armed deadline (silence can always be detected)",
                  cm is not None and cm.when is not None, kind="site")
@@ -171,7 +172,10 @@ def install_deadline_loop(h, w, F, T, ev):
         if cm is not None:
             cm.when = L + T
         ev.flag = h.bool("flag_k")
+        w0 = state.get("waits", 0)
         it2.exec_block(node.body, env)
+        h.oblige("every turn of the response loop waits for the response event (it never pushes the deadline, nor spins, without a response)",
+                 state.get("waits", 0) == w0 + 1, kind="loop-preserve")
         t_r = aio.now(it2)  # a response was processed
         h.oblige("a response pushes the deadline to exactly (time of the response + timeout)",
                  And(cm is not None, h.eq(cm.when, t_r + T) if cm is not None and cm.when is not None else False), kind="loop-preserve")
